@@ -115,6 +115,116 @@ func (P *Prog) reinitThroughCallers(r *Result, s *poolSite, testWBR bool, testWB
 	return n > 0
 }
 
+// wipedOnRelease: the fields of the pooled struct type st that are reset to a constant before every Put into
+// the pool (on every path of the releasing function, nothing written after the Put), given that the pool's New
+// functions allocate a zero value: such a field is clean at every Get although the acquiring function does not
+// store it ("wipe on the way in, not on the way out"). valOK restricts the constants that count.
+func (P *Prog) wipedOnRelease(pool *ssa.Global, st *types.Struct, valOK func(v ssa.Value) bool) fieldSet {
+	if pool == nil || st == nil {
+		return fieldSet{}
+	}
+	key := pool.Name()
+	if valOK == nil {
+		key += "#any"
+		valOK = func(v ssa.Value) bool { _, isC := cv(v).(*ssa.Const); return isC }
+	} else {
+		key += "#false"
+	}
+	if P.wipeMemo == nil {
+		P.wipeMemo = map[string]fieldSet{}
+	}
+	if m, ok := P.wipeMemo[key]; ok {
+		return m
+	}
+	res := fieldSet(nil)
+	nPut := 0
+	okAll := true
+	for _, fn := range P.Funcs {
+		eachInstr(fn, func(b *ssa.BasicBlock, i int, in ssa.Instruction) {
+			ci := callOf(in)
+			if !isSyncPoolMethod(ci, "Put") || ci.instr.Common().Args[0] != ssa.Value(pool) {
+				return
+			}
+			nPut++
+			if _, isCall := in.(*ssa.Call); !isCall {
+				okAll = false // deferred Put: the object is still written after this point
+				return
+			}
+			obj := cvi(ci.instr.Common().Args[1])
+			// nothing but the return follows the Put
+			for _, later := range b.Instrs[i+1:] {
+				switch later.(type) {
+				case *ssa.Return, *ssa.RunDefers, *ssa.DebugRef, *ssa.Jump:
+				default:
+					okAll = false
+				}
+			}
+			if !isExit(b) {
+				if len(b.Succs) != 1 || !isExit(b.Succs[0]) || len(b.Succs[0].Instrs) > 2 {
+					okAll = false
+				}
+			}
+			ms := &mustStore{P: P, fn: fn, st: st, isObj: func(v ssa.Value) bool { return v == obj || cvi(v) == obj }, valOK: valOK}
+			got := ms.run(fn.Blocks[0], 0)
+			if res == nil {
+				res = got
+			} else {
+				res = res.intersect(got)
+			}
+		})
+	}
+	// the New functions of the pool return a fresh zero value
+	nNew := 0
+	for _, fn := range P.Funcs {
+		eachInstr(fn, func(_ *ssa.BasicBlock, _ int, in ssa.Instruction) {
+			stt, ok := in.(*ssa.Store)
+			if !ok {
+				return
+			}
+			fa, ok := stt.Addr.(*ssa.FieldAddr)
+			if !ok || fa.X != ssa.Value(pool) {
+				return
+			}
+			if _, f := fieldVar(fa); f == nil || f.Name() != "New" {
+				return
+			}
+			nNew++
+			var nf *ssa.Function
+			switch x := cvi(stt.Val).(type) {
+			case *ssa.MakeClosure:
+				nf, _ = x.Fn.(*ssa.Function)
+			case *ssa.Function:
+				nf = x
+			}
+			if nf == nil || nf.Blocks == nil {
+				okAll = false
+				return
+			}
+			eachInstr(nf, func(_ *ssa.BasicBlock, _ int, in2 ssa.Instruction) {
+				switch y := in2.(type) {
+				case *ssa.Return:
+					if len(y.Results) != 1 {
+						okAll = false
+						return
+					}
+					if al, isAl := cvi(y.Results[0]).(*ssa.Alloc); !isAl || !al.Heap {
+						okAll = false
+					}
+				case *ssa.Store:
+					if _, isC := cv(y.Val).(*ssa.Const); !isC {
+						okAll = false // the fresh object is given something other than constants
+					}
+				}
+			})
+		})
+	}
+	if !okAll || nPut == 0 || nNew == 0 || res == nil {
+		res = fieldSet{}
+	}
+	P.wipeMemo[key] = res
+	return res
+}
+
 func isSyncPoolMethod(ci *callInfo, name string) bool {
 	if ci == nil || ci.static == nil {
 		return false
@@ -263,6 +373,10 @@ func checkC07(P *Prog, r *Result) {
 				c := fmt.Sprintf("%s#%s.%s", fname(s.fn), elemName, f.Name())
 				if stored[f.Origin()] {
 					r.ok("C07/reinit", c, P.ipos(s.call), "field definitely stored on every path from Pool.Get to return")
+					continue
+				}
+				if P.wipedOnRelease(s.pool, u, nil)[f.Origin()] {
+					r.ok("C07/reinit", c, P.ipos(s.call), "field is reset to a constant before every Put into this pool and New allocates a zero value: clean at every Get")
 					continue
 				}
 				if sameField(f, R.FTest) && sameNamed(s.elem, R.SchemaCtx) {
@@ -770,37 +884,35 @@ func (P *Prog) checkBalance(r *Result, rule string) {
 		}
 		return sameNamed(namedOf(ci.static.Signature.Recv().Type()), R.PathB)
 	}
-	count := 0
-	for _, fn := range P.Funcs {
-		has := false
-		eachInstr(fn, func(_ *ssa.BasicBlock, _ int, in ssa.Instruction) {
-			if ci := callOf(in); isPB(ci, "Push") || isPB(ci, "Pop") {
-				if sameNamed(namedOf(fn.Signature.Recv().Type()), R.PathB) {
-					return
-				}
-				has = true
-			}
-		})
-		if !has {
-			continue
-		}
-		count++
-		r.sawFunc(fname(fn))
-		// forward dataflow over pending depth: -1 unknown(top/unvisited), 0, 1, 2=conflict
-		const unv, conflict = -1, 99
+	// The depth of pushed-and-not-yet-popped segments, relative to function entry. A function that returns
+	// with a non-zero depth on every path (a helper such as `Enter(key)` = Push + resets, `Leave()` = Pop) is a
+	// balance helper: its net effect (delta) is applied at its call sites and the obligation moves to its callers.
+	const unv, conflict = -1000, 1000
+	delta := map[*ssa.Function]int{}
+	type result struct {
+		problem, ppos string
+		exit        int
+		has         bool
+	}
+	analyse := func(fn *ssa.Function, strict bool) result {
+		var res result
 		in := map[*ssa.BasicBlock]int{}
 		for _, b := range fn.Blocks {
 			in[b] = unv
 		}
 		in[fn.Blocks[0]] = 0
-		var problem string
-		var ppos string
+		exit := unv
+		note := func(msg, pos string) {
+			if res.problem == "" {
+				res.problem, res.ppos = msg, pos
+			}
+		}
 		changed := true
 		for iter := 0; changed && iter < 50; iter++ {
 			changed = false
 			for _, b := range fn.Blocks {
 				cur := in[b]
-				if cur == unv {
+				if cur == unv || cur == conflict {
 					continue
 				}
 				for _, ins := range b.Instrs {
@@ -810,25 +922,35 @@ func (P *Prog) checkBalance(r *Result, rule string) {
 					}
 					switch {
 					case isPB(ci, "Push"):
-						if cur != 0 && problem == "" {
-							problem = fmt.Sprintf("Push with %d segment(s) already pending in this function (missing Pop on some path)", cur)
-							ppos = P.ipos(ins)
+						res.has = true
+						if strict && cur != 0 {
+							note(fmt.Sprintf("Push with %d segment(s) already pending in this function (missing Pop on some path)", cur), P.ipos(ins))
 						}
 						cur++
 					case isPB(ci, "Pop"):
-						if cur != 1 && problem == "" {
-							problem = "Pop without a matching Push on some path"
-							ppos = P.ipos(ins)
+						res.has = true
+						if strict && cur != 1 {
+							note("Pop without a matching Push on some path", P.ipos(ins))
 						}
-						if cur > 0 {
-							cur--
+						cur--
+					case ci != nil && ci.static != nil && delta[ci.static] != 0:
+						res.has = true
+						d := delta[ci.static]
+						if strict && d > 0 && cur != 0 {
+							note(fmt.Sprintf("a segment is pushed (through %s) with %d segment(s) already pending in this function", fname(ci.static), cur), P.ipos(ins))
 						}
-					case ci != nil:
-						// nothing: callees are balanced by their own obligation
+						if strict && d < 0 && cur != 1 {
+							note(fmt.Sprintf("a segment is popped (through %s) without a matching push on some path", fname(ci.static)), P.ipos(ins))
+						}
+						cur += d
 					}
-					if _, ok := ins.(*ssa.Return); ok && cur != 0 && problem == "" {
-						problem = fmt.Sprintf("function returns with %d pushed path segment(s) not popped", cur)
-						ppos = P.ipos(ins)
+					if _, ok := ins.(*ssa.Return); ok {
+						switch {
+						case exit == unv:
+							exit = cur
+						case exit != cur:
+							note(fmt.Sprintf("returns with different numbers of pending path segments (%d vs %d)", exit, cur), P.ipos(ins))
+						}
 					}
 				}
 				for _, s := range b.Succs {
@@ -837,25 +959,68 @@ func (P *Prog) checkBalance(r *Result, rule string) {
 						in[s] = cur
 						changed = true
 					case in[s] != cur && in[s] != conflict:
-						if problem == "" {
-							problem = fmt.Sprintf("paths join with different numbers of pending path segments (%d vs %d)", in[s], cur)
-							ppos = P.pos(fn.Pos())
-							if len(s.Instrs) > 0 {
-								ppos = P.ipos(s.Instrs[0])
-							}
-						}
+						note(fmt.Sprintf("paths join with different numbers of pending path segments (%d vs %d)", in[s], cur), P.ipos(s.Instrs[0]))
 						in[s] = conflict
 						changed = true
 					}
 				}
-				if cur >= 50 {
-					break
-				}
 			}
 		}
-		if problem != "" {
-			r.bad(rule, fname(fn)+"#Path", ppos, "path stack not balanced: "+problem+": later issues of this execution are reported at the wrong path")
-		} else {
+		if exit == unv {
+			exit = 0
+		}
+		res.exit = exit
+		return res
+	}
+	touches := func(fn *ssa.Function) bool {
+		t := false
+		eachInstr(fn, func(_ *ssa.BasicBlock, _ int, in ssa.Instruction) {
+			if ci := callOf(in); isPB(ci, "Push") || isPB(ci, "Pop") || (ci != nil && ci.static != nil && delta[ci.static] != 0) {
+				t = true
+			}
+		})
+		return t
+	}
+	skip := func(fn *ssa.Function) bool {
+		rcv := fn.Signature.Recv()
+		return rcv != nil && sameNamed(namedOf(rcv.Type()), R.PathB)
+	}
+	// helper deltas to a fixpoint
+	for changed, iter := true, 0; changed && iter < 5; iter++ {
+		changed = false
+		for _, fn := range P.Funcs {
+			if skip(fn) || fn.Blocks == nil || !touches(fn) {
+				continue
+			}
+			res := analyse(fn, false)
+			if res.problem == "" && res.exit != delta[fn] {
+				delta[fn] = res.exit
+				changed = true
+			}
+		}
+	}
+	for _, fn := range P.Funcs {
+		if skip(fn) || fn.Blocks == nil || !touches(fn) {
+			continue
+		}
+		r.sawFunc(fname(fn))
+		if d := delta[fn]; d != 0 {
+			// a balance helper: consistent net effect on every path; judged at its call sites
+			res := analyse(fn, false)
+			if res.problem != "" {
+				r.bad(rule, fname(fn)+"#Path", res.ppos, "path stack not balanced: "+res.problem+": later issues of this execution are reported at the wrong path")
+			} else {
+				r.ok(rule, fname(fn)+"#Path", P.pos(fn.Pos()), fmt.Sprintf("helper with a net effect of %+d segment on every path; applied at its call sites", d))
+			}
+			continue
+		}
+		res := analyse(fn, true)
+		switch {
+		case res.problem != "":
+			r.bad(rule, fname(fn)+"#Path", res.ppos, "path stack not balanced: "+res.problem+": later issues of this execution are reported at the wrong path")
+		case res.exit != 0:
+			r.bad(rule, fname(fn)+"#Path", P.pos(fn.Pos()), fmt.Sprintf("path stack not balanced: function returns with %d pushed path segment(s) not popped: later issues of this execution are reported at the wrong path", res.exit))
+		default:
 			r.ok(rule, fname(fn)+"#Path", P.pos(fn.Pos()), "every Push is followed by exactly one Pop on every path; depth 0 at every return")
 		}
 	}
